@@ -102,7 +102,7 @@ def settings_pool(rng, n=40):
             ("PARSERS", lambda: rng.sample(parsers, rng.randint(1, 6))),
             ("DEFAULT_LANGUAGES", lambda: rng.sample(["en", "fr", "ru", "zh", "ar", "hi", "tl", "yue"], rng.randint(0, 2))),
             ("LANGUAGE_DETECTION_CONFIDENCE_THRESHOLD", lambda: rng.choice([0.0, 0.5, 1.0])),
-            ("CACHE_SIZE_LIMIT", lambda: rng.choice([0, 1, 2, 1000])),
+            ("CACHE_SIZE_LIMIT", lambda: rng.choice([0, 1, 2, 1000, -1, 10 ** 9])),
         ]:
             if rng.random() < 0.22:
                 st[key] = gen()
@@ -119,6 +119,16 @@ INVALID_SETTINGS = [
     {"LANGUAGE_DETECTION_CONFIDENCE_THRESHOLD": 2.0}, {"LANGUAGE_DETECTION_CONFIDENCE_THRESHOLD": "high"}, {"CACHE_SIZE_LIMIT": "big"},
     {"PREFER_LOCALE_DATE_ORDER": "true"}, {"DATE_ORDER": None}, {"FUZZY": "x"},
 ]
+# near misses of every documented value of the enumerated settings (case variants, padding, prefixes)
+_ENUMS = {"DATE_ORDER": ["DMY", "DYM", "MDY", "MYD", "YDM", "YMD"], "PREFER_MONTH_OF_YEAR": ["current", "first", "last"],
+          "PREFER_DAY_OF_MONTH": ["current", "first", "last"], "PREFER_DATES_FROM": ["current_period", "past", "future"]}
+for _k, _vals in _ENUMS.items():
+    for _v in _vals:
+        for _bad in {_v.lower(), _v.upper(), _v.title(), _v + " ", " " + _v, _v[:-1], _v + _v[-1]} - set(_vals):
+            INVALID_SETTINGS.append({_k: _bad})
+INVALID_SETTINGS += [{"PREFER_DATES_FROM": "current"}, {"PREFER_DAY_OF_MONTH": "current_period"}, {"DATE_ORDER": "DDMMYY"},
+                     {"REQUIRE_PARTS": ["Day"]}, {"PARSERS": ["Absolute-Time"]}, {"DEFAULT_LANGUAGES": ["EN"]}, {"TIMEZONE": None},
+                     {"STRICT_PARSING": 1}, {"NORMALIZE": "False"}, {"CACHE_SIZE_LIMIT": 10.5}, {"CACHE_SIZE_LIMIT": "10"}]
 
 DIRECTIVES = ["%Y", "%y", "%m", "%d", "%B", "%b", "%A", "%a", "%H", "%I", "%M", "%S", "%f", "%p", "%j", "%z", "%Z", "%U", "%w", "%%"]
 
